@@ -1,10 +1,248 @@
 /-
   Helper lemmas about `findCommands` / `fcLoop` (used by Props/C04Scan.lean).
+
+  Part 1: the keyword tables, evaluated (`decide`) — every word of a well-formed tree is
+          classified (`cls`) with respect to each of the four scanners.
+  Part 2: single steps of `fcLoop`, phrased with `cls`.
+  Part 3: `Seg` — a list of script instructions sits at an offset of the program.
+  Part 4: `ScanP` — the scanner walks over a list of instructions and comes out in the same
+          state (plus recorded else-lines); composition lemmas.
+  Part 5: induction over the tree.
 -/
 import DuckModel.Sdk.Flow
 import DuckModel.Spec.TreeWF
 
 namespace Duck
 open Duck.Spec Duck.Generated
+
+/-! ### Part 1: tables -/
+
+/-- what `fcLoop` does with a command word, as decided by the cascade of table lookups -/
+inductive Cls
+  | sb | mid | eb | en | enb | sn | plain
+deriving DecidableEq, Repr
+
+def cls (t : FlowTables) (c : Str) : Cls :=
+  if t.startBlocks.contains c then .sb
+  else if t.middleNames.contains c then .mid
+  else if t.endNames.contains c then (if t.endBlocks.contains c then .enb else .en)
+  else if t.endBlocks.contains c then .eb
+  else if t.startNames.contains c then .sn
+  else .plain
+
+def Cls.isEB : Cls → Bool
+  | .eb | .enb => true
+  | _ => false
+
+def Cls.isEN : Cls → Bool
+  | .en | .enb => true
+  | _ => false
+
+/-- the four block kinds / scanners -/
+inductive Kind
+  | kIf | kWhile | kFor | kFn
+deriving DecidableEq, Repr
+
+def Kind.tbl : Kind → FlowTables
+  | .kIf => ifTables
+  | .kWhile => whileTables
+  | .kFor => forTables
+  | .kFn => fnTables
+
+def Kind.isOpen : Kind → Str → Bool
+  | .kIf => isIfKw
+  | .kWhile => isWhileKw
+  | .kFor => isForKw
+  | .kFn => isFnKw
+
+def Kind.isEnd : Kind → Str → Bool
+  | .kIf => isEndIfKw
+  | .kWhile => isEndWhileKw
+  | .kFor => isEndForKw
+  | .kFn => isEndFnKw
+
+theorem forall_contains {l : List Str} {p : Str → Prop} [DecidablePred p]
+    (h : l.all (fun k => decide (p k)) = true) : ∀ k, l.contains k = true → p k := by
+  intro k hk
+  have := List.all_eq_true.mp h k (by simpa using hk)
+  simpa using this
+
+theorem forall_contains_or {l : List Str} {e : Str} {p : Str → Prop} [DecidablePred p]
+    (h : (l ++ [e]).all (fun k => decide (p k)) = true) :
+    ∀ k, (l.contains k || k == e) = true → p k := by
+  intro k hk
+  apply forall_contains h k
+  simpa using hk
+
+theorem forall_contains_or2 {l l' : List Str} {p : Str → Prop} [DecidablePred p]
+    (h : (l ++ l').all (fun k => decide (p k)) = true) :
+    ∀ k, (l.contains k || l'.contains k) = true → p k := by
+  intro k hk
+  apply forall_contains h k
+  simpa using hk
+
+/-- openers: same kind ⇒ `startNames` only; other kind ⇒ `startBlocks` -/
+theorem cls_open (K K' : Kind) :
+    ∀ k, K'.isOpen k = true → cls K.tbl k = if K = K' then .sn else .sb := by
+  cases K <;> cases K' <;> exact forall_contains (by decide)
+
+/-- end words: same kind ⇒ in `endNames`; other kind ⇒ in `endBlocks` -/
+theorem cls_end (K K' : Kind) :
+    ∀ k, K'.isEnd k = true →
+      if K = K' then (cls K.tbl k).isEN = true else (cls K.tbl k).isEB = true := by
+  cases K <;> cases K' <;> exact forall_contains_or (by decide)
+
+/-- `elif` / `else` words: recorded by the `if` scanner, ignored by the others -/
+theorem cls_mid (K : Kind) :
+    ∀ k, (isElifKw k || isElseKw k) = true → cls K.tbl k = if K = .kIf then .mid else .plain := by
+  cases K <;> exact forall_contains_or2 (by decide)
+
+theorem tables_sub (K : Kind) :
+    (K.tbl.startBlocks ++ K.tbl.middleNames ++ K.tbl.endNames ++ K.tbl.endBlocks ++
+      K.tbl.startNames).all (fun k => flowWords.contains k) = true := by
+  cases K <;> decide
+
+/-- plain commands are in no table -/
+theorem cls_plain (K : Kind) (c : Str) (h : isPlainCmd c = true) : cls K.tbl c = .plain := by
+  have hs := tables_sub K
+  have hc : flowWords.contains c = false := by simpa [isPlainCmd] using h
+  rw [List.all_eq_true] at hs
+  have key : ∀ L : List Str, (∀ k, k ∈ L → k ∈ K.tbl.startBlocks ++ K.tbl.middleNames ++
+      K.tbl.endNames ++ K.tbl.endBlocks ++ K.tbl.startNames) → L.contains c = false := by
+    intro L hL
+    cases hLc : L.contains c with
+    | false => rfl
+    | true =>
+      have hm : c ∈ L := by simpa using hLc
+      have := hs c (hL c hm)
+      rw [hc] at this
+      exact absurd this (by simp)
+  have h1 := key K.tbl.startBlocks (by intro k hk; simp [hk])
+  have h2 := key K.tbl.middleNames (by intro k hk; simp [hk])
+  have h3 := key K.tbl.endNames (by intro k hk; simp [hk])
+  have h4 := key K.tbl.endBlocks (by intro k hk; simp [hk])
+  have h5 := key K.tbl.startNames (by intro k hk; simp [hk])
+  unfold cls
+  rw [h1, h2, h3, h4, h5]
+  rfl
+
+/-- `return` spellings are plain -/
+theorem ret_plain : ∀ k, namesReturnCommand.contains k = true → isPlainCmd k = true :=
+  forall_contains (by decide)
+
+theorem allowRecursive_of_ne_fn (K : Kind) (h : K ≠ .kFn) : K.tbl.allowRecursive = true := by
+  cases K <;> first | rfl | exact absurd rfl h
+
+theorem names_nonempty (K : Kind) :
+    ¬ (K.tbl.startNames.isEmpty = true ∨ K.tbl.endNames.isEmpty = true) := by
+  cases K <;> decide
+
+/-! ### Part 2: single steps of `fcLoop` -/
+
+theorem cls_sb_inv {t : FlowTables} {c : Str} (h : cls t c = .sb) : c ∈ t.startBlocks := by
+  unfold cls at h
+  repeat' split at h
+  all_goals first | (cases h; done) | simp_all [Cls.isEB, Cls.isEN]
+
+theorem cls_mid_inv {t : FlowTables} {c : Str} (h : cls t c = .mid) :
+    c ∉ t.startBlocks ∧ c ∈ t.middleNames := by
+  unfold cls at h
+  repeat' split at h
+  all_goals first | (cases h; done) | simp_all [Cls.isEB, Cls.isEN]
+
+theorem cls_plain_inv {t : FlowTables} {c : Str} (h : cls t c = .plain) :
+    c ∉ t.startBlocks ∧ c ∉ t.middleNames ∧
+    c ∉ t.endNames ∧ c ∉ t.endBlocks ∧ c ∉ t.startNames := by
+  unfold cls at h
+  repeat' split at h
+  all_goals first | (cases h; done) | simp_all [Cls.isEB, Cls.isEN]
+
+theorem cls_sn_inv {t : FlowTables} {c : Str} (h : cls t c = .sn) :
+    c ∉ t.startBlocks ∧ c ∉ t.middleNames ∧
+    c ∉ t.endNames ∧ c ∉ t.endBlocks ∧ c ∈ t.startNames := by
+  unfold cls at h
+  repeat' split at h
+  all_goals first | (cases h; done) | simp_all [Cls.isEB, Cls.isEN]
+
+theorem cls_eb_inv {t : FlowTables} {c : Str} (h : (cls t c).isEB = true) :
+    c ∉ t.startBlocks ∧ c ∉ t.middleNames ∧
+    c ∈ t.endBlocks := by
+  unfold cls at h
+  repeat' split at h
+  all_goals first | (cases h; done) | simp_all [Cls.isEB, Cls.isEN]
+
+theorem cls_en_inv {t : FlowTables} {c : Str} (h : (cls t c).isEN = true) :
+    c ∉ t.startBlocks ∧ c ∉ t.middleNames ∧
+    c ∈ t.endNames := by
+  unfold cls at h
+  repeat' split at h
+  all_goals first | (cases h; done) | simp_all [Cls.isEB, Cls.isEN]
+
+section steps
+variable (t : FlowTables) (is : List Instruction) (rec : Nat → Except FcErr Positions)
+
+theorem fcLoop_lt (n line skipTo delta : Nat) (middle : List Nat) (h : line < skipTo) :
+    fcLoop t is rec (n + 1) line skipTo delta middle = fcLoop t is rec n (line + 1) skipTo delta middle := by
+  simp [fcLoop, h]
+
+theorem fcLoop_plain (n line skipTo delta : Nat) (middle : List Nat) (c : Str) (h : skipTo ≤ line)
+    (hc : commandAt is line = some c) (hk : cls t c = .plain) :
+    fcLoop t is rec (n + 1) line skipTo delta middle = fcLoop t is rec n (line + 1) skipTo delta middle := by
+  obtain ⟨h1, h2, h3, h4, h5⟩ := cls_plain_inv hk
+  have : ¬ line < skipTo := by omega
+  simp [fcLoop, this, hc, h1, h2, h3, h4, h5]
+
+theorem fcLoop_sb (n line skipTo delta : Nat) (middle : List Nat) (c : Str) (h : skipTo ≤ line)
+    (hc : commandAt is line = some c) (hk : cls t c = .sb) :
+    fcLoop t is rec (n + 1) line skipTo delta middle = fcLoop t is rec n (line + 1) skipTo (delta + 1) middle := by
+  have h1 := cls_sb_inv hk
+  have : ¬ line < skipTo := by omega
+  simp [fcLoop, this, hc, h1]
+
+theorem fcLoop_mid (n line skipTo delta : Nat) (middle : List Nat) (c : Str) (h : skipTo ≤ line)
+    (hc : commandAt is line = some c) (hk : cls t c = .mid) :
+    fcLoop t is rec (n + 1) line skipTo delta middle = fcLoop t is rec n (line + 1) skipTo delta (middle ++ [line]) := by
+  obtain ⟨h1, h2⟩ := cls_mid_inv hk
+  have : ¬ line < skipTo := by omega
+  simp [fcLoop, this, hc, h1, h2]
+
+theorem fcLoop_eb (n line skipTo delta : Nat) (middle : List Nat) (c : Str) (h : skipTo ≤ line)
+    (hc : commandAt is line = some c) (hk : (cls t c).isEB = true) :
+    fcLoop t is rec (n + 1) line skipTo (delta + 1) middle = fcLoop t is rec n (line + 1) skipTo delta middle := by
+  obtain ⟨h1, h2, h3⟩ := cls_eb_inv hk
+  have : ¬ line < skipTo := by omega
+  simp [fcLoop, this, hc, h1, h2, h3]
+
+theorem fcLoop_en (n line skipTo : Nat) (middle : List Nat) (c : Str) (h : skipTo ≤ line)
+    (hc : commandAt is line = some c) (hk : (cls t c).isEN = true) :
+    fcLoop t is rec (n + 1) line skipTo 0 middle = .ok ⟨middle, line⟩ := by
+  obtain ⟨h1, h2, h3⟩ := cls_en_inv hk
+  have : ¬ line < skipTo := by omega
+  simp [fcLoop, this, hc, h1, h2, h3]
+
+theorem fcLoop_sn (n line skipTo delta : Nat) (middle : List Nat) (c : Str) (sub : Positions) (h : skipTo ≤ line)
+    (hc : commandAt is line = some c) (hk : cls t c = .sn) (ha : t.allowRecursive = true)
+    (hr : rec (line + 1) = .ok sub) :
+    fcLoop t is rec (n + 1) line skipTo delta middle = fcLoop t is rec n (line + 1) (sub.stop + 1) delta middle := by
+  obtain ⟨h1, h2, h3, h4, h5⟩ := cls_sn_inv hk
+  have : ¬ line < skipTo := by omega
+  simp [fcLoop, this, hc, h1, h2, h3, h4, h5, ha, hr]
+
+/-- lines below `skipTo` are skipped -/
+theorem fcLoop_skipTo (skipTo delta : Nat) (middle : List Nat) :
+    ∀ (d n line : Nat), line + d = skipTo → d ≤ n →
+      fcLoop t is rec n line skipTo delta middle = fcLoop t is rec (n - d) skipTo skipTo delta middle := by
+  intro d
+  induction d with
+  | zero => intro n line h _; simp at h; subst h; simp
+  | succ d ih =>
+    intro n line h hn
+    obtain ⟨m, rfl⟩ : ∃ m, n = m + 1 := ⟨n - 1, by omega⟩
+    rw [fcLoop_lt t is rec m line skipTo delta middle (by omega)]
+    rw [ih m (line + 1) (by omega) (by omega)]
+    congr 1
+    omega
+
+end steps
 
 end Duck
